@@ -509,7 +509,7 @@ func (x *Exec) havocCall(site ssa.Instruction, sig *types.Signature, name string
 		if all {
 			x.obl("frame[call "+name+"]", "frame", "call without contract may write anything", st, TFalse)
 		} else {
-			for h := range heaps {
+			for _, h := range keys(heaps) {
 				if h == "*iface*" {
 					continue
 				}
@@ -521,7 +521,11 @@ func (x *Exec) havocCall(site ssa.Instruction, sig *types.Signature, name string
 	}
 	if all {
 		// globals may change
+		gk := map[interface{}]bool{}
 		for k := range st.cells {
+			gk[k] = true
+		}
+		for _, k := range sortedKeys(gk) {
 			if g, ok := k.(*ssa.Global); ok {
 				t := g.Type().Underlying().(*types.Pointer).Elem()
 				st.cells[k] = u.W.Fresh("g."+g.Name(), u.W.SortOf(t))
